@@ -290,7 +290,7 @@ std::string handle(const std::string& op, Args& a)
 			o << M.Rows() << M.Columns();
 		});
 	}
-	if(op == "c10.mat.block")
+	if(op == "c10.mat.block" || op == "c10.mat.block.empty")
 	{
 		unsigned R = U(a), C = U(a);
 		std::vector<std::pair<unsigned, unsigned>> sh;
@@ -307,6 +307,32 @@ std::string handle(const std::string& op, Args& a)
 					blocks[r].push_back(Matrix(sh[r * C + c].first, sh[r * C + c].second, 1.0 + r + c));
 			Matrix M(blocks);
 			o << M.Rows() << M.Columns();
+		});
+	}
+	if(op == "c10.mat.blockr")	 // a possibly ragged / empty list of rows of blocks: k rows, each `n (r c)*n`
+	{
+		size_t k = a.u64();
+		std::vector<std::vector<std::pair<unsigned, unsigned>>> sh(k);
+		for(auto& row : sh)
+		{
+			size_t n = a.u64();
+			for(size_t i = 0; i < n; i++)
+			{
+				unsigned r = U(a), c = U(a);
+				row.push_back({r, c});
+			}
+		}
+		a.end();
+		return run_forked([&](Out& o) {
+			std::vector<std::vector<Matrix>> blocks(k);
+			for(size_t r = 0; r < k; r++)
+				for(auto& s : sh[r])
+					blocks[r].push_back(Matrix(s.first, s.second, 1.5));
+			Matrix M(blocks);
+			o << M.Rows() << M.Columns();
+			for(unsigned i = 0; i < M.Rows(); i++)
+				for(unsigned j = 0; j < M.Columns(); j++)
+					o << M[i][j];
 		});
 	}
 	if(op == "c10.mat.delrow" || op == "c10.mat.delcol" || op == "c10.mat.row" || op == "c10.mat.col")
@@ -649,11 +675,19 @@ std::string handle(const std::string& op, Args& a)
 		a.end();
 		return run_forked([&](Out& o) { o << GammaLn(x); });
 	}
-	if(op == "c10.gammaq" || op == "c10.invgammap")
+	if(op == "c10.gammaq" || op == "c10.invgammap" || op == "c10.invgammap.p" || op == "c10.invgammaq" || op == "c10.uppergamma" || op == "c10.lowergamma")
 	{
 		double x = a.dbl(), y = a.dbl();
 		a.end();
-		return run_forked([&](Out& o) { o << (op == "c10.gammaq" ? GammaQ(x, y) : Inv_GammaP(x, y)); });
+		return run_forked([&](Out& o) {
+			o << (op == "c10.gammaq" ? GammaQ(x, y) : (op == "c10.invgammap" || op == "c10.invgammap.p") ? Inv_GammaP(x, y) : op == "c10.invgammaq" ? Inv_GammaQ(x, y) : op == "c10.uppergamma" ? Upper_Incomplete_Gamma(x, y) : Lower_Incomplete_Gamma(x, y));
+		});
+	}
+	if(op == "c10.gamma")
+	{
+		double x = a.dbl();
+		a.end();
+		return run_forked([&](Out& o) { o << Gamma(x); });
 	}
 	if(op == "c10.round")
 	{
@@ -715,6 +749,75 @@ std::string handle(const std::string& op, Args& a)
 				o << CDF_Maxwell_Boltzmann(x, p);
 		});
 	}
+	if(op == "c10.pdfuniform" || op == "c10.cdfuniform" || op == "c10.pdfgauss" || op == "c10.cdfgauss" || op == "c10.quantilegauss")
+	{
+		double x = a.dbl(), p1 = a.dbl(), p2 = a.dbl();
+		a.end();
+		return run_forked([&](Out& o) {
+			o << (op == "c10.pdfuniform" ? PDF_Uniform(x, p1, p2) : op == "c10.cdfuniform" ? CDF_Uniform(x, p1, p2) : op == "c10.pdfgauss" ? PDF_Gauss(x, p1, p2) : op == "c10.cdfgauss" ? CDF_Gauss(x, p1, p2) : Quantile_Gauss(x, p1, p2));
+		});
+	}
+	if(op == "c10.pdfgauss2d")
+	{
+		double sx = a.dbl(), sy = a.dbl();
+		a.end();
+		return run_forked([&](Out& o) {
+			std::pair<double, double> mean(0.5, -0.5), sigma(sx, sy);
+			o << PDF_Gauss_2D(0.25, 0.75, mean, sigma);
+		});
+	}
+	if(op == "c10.pdfchisq" || op == "c10.cdfchisq")
+	{
+		double x = a.dbl(), d = a.dbl();
+		a.end();
+		return run_forked([&](Out& o) { o << (op == "c10.pdfchisq" ? PDF_Chi_Square(x, d) : CDF_Chi_Square(x, d)); });
+	}
+	if(op == "c10.llpoisson" || op == "c10.lpoisson")
+	{
+		double pred = a.dbl();
+		unsigned n	= U(a);
+		double bkg	= a.dbl();
+		a.end();
+		return run_forked([&](Out& o) { o << (op == "c10.llpoisson" ? Log_Likelihood_Poisson(pred, n, bkg) : Likelihood_Poisson(pred, n, bkg)); });
+	}
+	if(op == "c10.sampleuniform" || op == "c10.samplegauss")
+	{
+		double p1 = a.dbl(), p2 = a.dbl();
+		a.end();
+		return run_forked([&](Out& o) {
+			std::mt19937 PRNG(4711);
+			for(int i = 0; i < 3; i++)
+				o << (op == "c10.sampleuniform" ? Sample_Uniform(PRNG, p1, p2) : Sample_Gauss(PRNG, p1, p2));
+		});
+	}
+	if(op == "c10.samplepoisson")
+	{
+		double mu = a.dbl();
+		a.end();
+		return run_forked([&](Out& o) {
+			std::mt19937 PRNG(4711);
+			o << Sample_Poisson(PRNG, mu);
+		});
+	}
+	if(op == "c10.samplepoissonv")
+	{
+		auto mus = a.dbls();
+		a.end();
+		return run_forked([&](Out& o) {
+			std::mt19937 PRNG(4711);
+			o.ilist(Sample_Poisson(PRNG, mus));
+		});
+	}
+	if(op == "c10.metropolissigma")
+	{
+		double sg = a.dbl();
+		a.end();
+		return run_forked([&](Out& o) {
+			std::mt19937 PRNG(12345);
+			auto s = Sample_Metropolis(PRNG, [](double x) { return exp(-0.5 * x * x); }, sg, 5, 2, 3, std::vector<double> {});
+			o << s.size();
+		});
+	}
 	if(op == "c10.llbinned" || op == "c10.lbinned")
 	{
 		unsigned n = U(a), m = U(a), k = U(a);
@@ -747,7 +850,7 @@ std::string handle(const std::string& op, Args& a)
 		});
 	}
 	// ---------------------------------------------------------------- 8. lists, utilities, units
-	if(op == "c10.transpose")
+	if(op == "c10.transpose" || op == "c10.transpose.empty")
 	{
 		auto lens = a.ints();
 		a.end();
@@ -765,7 +868,7 @@ std::string handle(const std::string& op, Args& a)
 			o << r.size();
 		});
 	}
-	if(op == "c10.closest")
+	if(op == "c10.closest" || op == "c10.closest.empty")
 	{
 		auto l	 = a.dbls();
 		double t = a.dbl();
@@ -824,7 +927,7 @@ std::string handle(const std::string& op, Args& a)
 		unlink(path.c_str());
 		return r;
 	}
-	if(op == "c10.importtable")
+	if(op == "c10.importtable" || op == "c10.importtable.empty")
 	{
 		unsigned ex = U(a), rows = U(a), cols = U(a), nd = U(a);
 		a.end();
